@@ -255,6 +255,7 @@ def aggregate(prop, cfg, tier, seed, results, wall, write=True):
             "unlisted_violation_mechanisms": dict(unknown),
             "reach_repo_functions_entered": len(reach),
             "reach_top": dict(reach.most_common(25)),
+            "reach_functions": dict(sorted(reach.items())),
             "notes": dict(sorted(notes.items())),
             "extra": extra,
             "shards": len(results), "worker_crashes": len(crashes), "watchdog_expired": len(timeouts),
